@@ -1,7 +1,7 @@
 /-
 C03 (part 6, coverage-guided widening): the other entry points of the commit rule.
-  * `VerifyCommitAny` (exported, no caller): the full statement is FALSE of the code (a validator is counted once per slot):
-    kernel-checked counterexample + the partial that is true (slot i carries validator i's address);
+  * `VerifyCommitAny` (exported, no caller): after fix ddc1c92 (a `seen` set, marked before the signature test) the full
+    statement is PROVED (`C03_verifyCommitAny`); on aligned commits it coincides with `VerifyCommit`;
   * the call sites (T2 facts re-extracted on every run): which validator set / chain / block id / height / commit each caller
     hands to `VerifyCommit`, what it does on failure, and the exact shape of `reconstructLastCommit`;
   * `reconstruct` (restart): a rebuilt LastCommit has > 2/3 of the last validators' power behind its majority block;
@@ -138,27 +138,25 @@ def hasSlotFor (verify : Verify) (chain : List UInt8) (bid : BlockID) (h : Nat) 
 def signerPower (verify : Verify) (chain : List UInt8) (bid : BlockID) (h : Nat) (r : Int) (vals : List Val) (ps : List (Option Vote)) : Int :=
   (vals.map (fun val => if hasSlotFor verify chain bid h r val ps then val.power else 0)).sum
 
-/-- FULL STATEMENT (false of the code): what `VerifyCommitAny` accepts is signed by distinct validators with > 2/3 -/
+/-- FULL STATEMENT (proved below, `C03_verifyCommitAny`): what `VerifyCommitAny` accepts is signed by a duplicate-free set
+of validators of the set (the sum runs over the SET `vals`, each validator at most once), each with a verifying precommit
+for exactly `bid` at `h` in the common round, holding > 2/3 of the total -/
 def C03_verifyCommitAny_statement : Prop :=
   ∀ (verify : Verify) (vals : List Val) (chain : List UInt8) (bid : BlockID) (h : Nat) (c : Commit),
-    NoOverflow vals → verifyCommitAny verify vals chain bid h c = .ok () →
+    NoOverflow vals → (vals.map (·.addr)).Nodup → verifyCommitAny verify vals chain bid h c = .ok () →
     3 * signerPower verify chain bid h (Model.Commit.round c) vals c.precommits > 2 * sumPowers vals
 
-/-- two equal validators; validator 1's precommit sits in both slots: accepted, although the signers hold 1 of 2 -/
 theorem verdict_none (e : Except VErr Unit) (h : verdict e = none) : e = .ok () := by
   cases e with
   | ok u => rfl
   | error x => simp [verdict] at h
 
-theorem C03_verifyCommitAny_counterexample : ¬ C03_verifyCommitAny_statement := by
-  intro hs
-  have := hs symVerify (exVals 2) [99] exB 5 ⟨exB, [some (exVote 1 exB), some (exVote 1 exB)]⟩ ⟨by decide, by decide⟩
-    (verdict_none _ (by decide))
-  revert this
-  decide
-
-/-- the same commit is refused by `VerifyCommit` (slot 0 is checked against validator 0's key) -/
+/-- the witness of the repaired defect: validator 1's precommit in both slots of a two-validator commit is now REFUSED
+(counted once: 1 of 2), by `VerifyCommit` as before -/
+example : verdict (verifyCommitAny symVerify (exVals 2) [99] exB 5 ⟨exB, [some (exVote 1 exB), some (exVote 1 exB)]⟩) = some .power := by decide
 example : verdict (verifyCommit symVerify (exVals 2) [99] exB 5 ⟨exB, [some (exVote 1 exB), some (exVote 1 exB)]⟩) = some .sig := by decide
+/-- … while a shuffled commit of three DIFFERENT validators out of four is accepted -/
+example : verdict (verifyCommitAny symVerify (exVals 4) [99] exB 5 ⟨exB, [some (exVote 3 exB), none, some (exVote 0 exB), some (exVote 1 exB)]⟩) = none := by decide
 
 /-- slot i carries validator i's address (what a commit made by consensus looks like); same number of slots as validators -/
 def Aligned : List Val → List (Option Vote) → Prop
@@ -179,10 +177,10 @@ theorem find_mid (pre : List Val) (val : Val) (rest : List Val) (h : ∀ w ∈ p
     exact this
 
 theorem tallyLoopAny_aligned (verify : Verify) (chain : List UInt8) (bid : BlockID) (h : Nat) (r : Int)
-    (pre rest : List Val) (ps : List (Option Vote)) (acc : Int)
-    (hnd : ((pre ++ rest).map (·.addr)).Nodup) (hal : Aligned rest ps) :
-    tallyLoopAny verify chain bid h r (pre ++ rest) ps acc = tallyLoop verify chain bid h r rest ps acc := by
-  induction rest generalizing pre ps acc with
+    (pre rest : List Val) (ps : List (Option Vote)) (seen : List (List UInt8)) (acc : Int)
+    (hnd : ((pre ++ rest).map (·.addr)).Nodup) (hseen : ∀ a ∈ seen, a ∈ pre.map (·.addr)) (hal : Aligned rest ps) :
+    tallyLoopAny verify chain bid h r (pre ++ rest) ps seen acc = tallyLoop verify chain bid h r rest ps acc := by
+  induction rest generalizing pre ps seen acc with
   | nil =>
     cases ps with
     | nil => simp [tallyLoopAny, tallyLoop]
@@ -190,6 +188,17 @@ theorem tallyLoopAny_aligned (verify : Verify) (chain : List UInt8) (bid : Block
   | cons val rest ih =>
     have hassoc : pre ++ val :: rest = (pre ++ [val]) ++ rest := by simp
     have hnd' : (((pre ++ [val]) ++ rest).map (·.addr)).Nodup := by rw [← hassoc]; exact hnd
+    have hpre : ∀ w ∈ pre, w.addr ≠ val.addr := by
+      intro w hw hEq
+      simp only [List.map_append, List.map_cons] at hnd
+      have := (List.nodup_append.1 hnd).2.2 w.addr (List.mem_map_of_mem (f := (·.addr)) hw) val.addr (by simp)
+      exact this hEq
+    have hseen' : ∀ (x : List UInt8) (sn : List (List UInt8)), (∀ a ∈ sn, a ∈ pre.map (·.addr) ∨ a = x) → x = val.addr →
+        ∀ a ∈ sn, a ∈ (pre ++ [val]).map (·.addr) := by
+      intro x sn hs hx a ha
+      rcases hs a ha with h1 | h1
+      · simp only [List.map_append, List.mem_append]; exact Or.inl h1
+      · simp [h1, hx]
     cases ps with
     | nil => simp [Aligned] at hal
     | cons o ps =>
@@ -197,26 +206,32 @@ theorem tallyLoopAny_aligned (verify : Verify) (chain : List UInt8) (bid : Block
       | none =>
         simp only [Aligned] at hal
         simp only [tallyLoopAny, tallyLoop]
-        rw [hassoc]; exact ih (pre ++ [val]) ps acc hnd' hal
+        rw [hassoc]
+        exact ih (pre ++ [val]) ps seen acc hnd' (hseen' val.addr seen (fun a ha => Or.inl (hseen a ha)) rfl) hal
       | some v =>
         simp only [Aligned] at hal
-        have hpre : ∀ w ∈ pre, w.addr ≠ val.addr := by
-          intro w hw hEq
-          simp only [List.map_append, List.map_cons] at hnd
-          have := (List.nodup_append.1 hnd).2.2 w.addr (List.mem_map_of_mem (f := (·.addr)) hw) val.addr (by simp)
-          exact this hEq
         have hfind : findByAddr (pre ++ val :: rest) v.addr = some val := by rw [hal.1]; exact find_mid pre val rest hpre
-        simp only [tallyLoopAny, tallyLoop, hfind]
+        have hns : seen.contains v.addr = false := by
+          have : v.addr ∉ seen := fun hin => by
+            obtain ⟨w, hw, hwa⟩ := List.mem_map.1 (hseen _ hin)
+            exact hpre w hw (hwa.trans hal.1)
+          simpa using this
+        have hs2 : ∀ a ∈ v.addr :: seen, a ∈ (pre ++ [val]).map (·.addr) :=
+          hseen' v.addr (v.addr :: seen) (fun a ha => by
+            rcases List.mem_cons.1 ha with h1 | h1
+            · exact Or.inr h1
+            · exact Or.inl (hseen a h1)) hal.1
+        simp only [tallyLoopAny, tallyLoop, hfind, hns, Bool.false_eq_true, if_false]
         rw [hassoc]
-        simp only [ih (pre ++ [val]) ps _ hnd' hal.2]
+        simp only [ih (pre ++ [val]) ps (v.addr :: seen) _ hnd' hs2 hal.2]
 
-/-- PARTIAL (true of the code): on a commit whose slot i carries validator i's address — every commit consensus makes —
-`VerifyCommitAny` IS `VerifyCommit`, hence sound (`verifyCommit_sound`); the defect needs a repeated address -/
+/-- on a commit whose slot i carries validator i's address — every commit consensus makes — `VerifyCommitAny` IS
+`VerifyCommit` (also index by index, see `verifyCommitAny_aligned_sound`) -/
 theorem verifyCommitAny_aligned (verify : Verify) (vals : List Val) (chain : List UInt8) (bid : BlockID) (h : Nat) (c : Commit)
     (hnd : (vals.map (·.addr)).Nodup) (hal : Aligned vals c.precommits) :
     verifyCommitAny verify vals chain bid h c = verifyCommit verify vals chain bid h c := by
   unfold verifyCommitAny verifyCommit
-  have := tallyLoopAny_aligned verify chain bid h (Model.Commit.round c) [] vals c.precommits 0 (by simpa using hnd) hal
+  have := tallyLoopAny_aligned verify chain bid h (Model.Commit.round c) [] vals c.precommits [] 0 (by simpa using hnd) (fun a ha => by simp at ha) hal
   simp only [List.nil_append] at this
   rw [this]
 
@@ -362,5 +377,134 @@ example : mverdict (verifySign (some (exVals 4)) [([0], .good 0), ([1], .good 1)
 example : mverdict (verifySign (some (exVals 4)) [([0], .good 0), ([0], .good 0), ([1], .good 1), ([2], .good 2)]) = some .dup := by decide
 example : mverdict (verifySign (some (exVals 4)) [([0], .good 0), ([1], .good 0), ([2], .other 2), ([3], .good 3)]) = some .power := by decide
 example : ((exVals 4).map (·.addr)).Nodup := by decide
+
+
+/-! ### `VerifyCommitAny`, full statement (after fix ddc1c92) -/
+
+theorem find_addr (vals : List Val) (a : List UInt8) (val : Val) (h : findByAddr vals a = some val) : val.addr = a := by
+  unfold findByAddr at h
+  have := List.find?_some h
+  simpa using this
+
+theorem find_self (vals : List Val) (v : Val) (hnd : (vals.map (·.addr)).Nodup) (hv : v ∈ vals) :
+    findByAddr vals v.addr = some v := by
+  obtain ⟨pre, rest, rfl⟩ := List.append_of_mem hv
+  apply find_mid
+  intro w hw hEq
+  simp only [List.map_append, List.map_cons] at hnd
+  exact (List.nodup_append.1 hnd).2.2 w.addr (List.mem_map_of_mem (f := (·.addr)) hw) v.addr (by simp) hEq
+
+theorem powerWhere_map_mono (vs : List Val) (f g : Val → Bool) (hp : ∀ v ∈ vs, 0 ≤ v.power)
+    (h : ∀ v ∈ vs, f v = true → g v = true) : powerWhere vs (vs.map f) ≤ powerWhere vs (vs.map g) := by
+  induction vs with
+  | nil => simp [powerWhere]
+  | cons v vs ih =>
+    have hv := hp v List.mem_cons_self
+    have := ih (fun w hw => hp w (List.mem_cons_of_mem _ hw)) (fun w hw => h w (List.mem_cons_of_mem _ hw))
+    have h0 := h v List.mem_cons_self
+    simp only [List.map_cons, powerWhere]
+    cases hf : f v with
+    | false => cases g v <;> simp <;> omega
+    | true => simp [h0 hf]; omega
+
+theorem signerPower_eq (verify : Verify) (chain : List UInt8) (bid : BlockID) (h : Nat) (r : Int) (vals : List Val)
+    (ps : List (Option Vote)) :
+    signerPower verify chain bid h r vals ps = powerWhere vals (vals.map (fun val => hasSlotFor verify chain bid h r val ps)) := by
+  unfold signerPower
+  induction vals with
+  | nil => simp [powerWhere]
+  | cons v vs ih => simp only [List.map_cons, List.sum_cons, powerWhere, ih]
+
+/-- the loop: what it tallies is the power of a set of addresses, each belonging to a validator with a verifying slot -/
+theorem tallyLoopAny_ok (verify : Verify) (chain : List UInt8) (bid : BlockID) (h : Nat) (r : Int) (vals : List Val)
+    (all : List (Option Vote)) (hno : NoOverflow vals) (hnd : (vals.map (·.addr)).Nodup)
+    (ps : List (Option Vote)) (seen cnt : List (List UInt8)) (acc t : Int)
+    (hsub : ∀ o ∈ ps, o ∈ all) (hacc : acc = seenPower vals cnt) (hcs : ∀ a ∈ cnt, a ∈ seen)
+    (hcnt : ∀ a ∈ cnt, ∃ val, findByAddr vals a = some val ∧ hasSlotFor verify chain bid h r val all = true)
+    (hok : tallyLoopAny verify chain bid h r vals ps seen acc = .ok t) :
+    ∃ cnt', (∀ a ∈ cnt', ∃ val, findByAddr vals a = some val ∧ hasSlotFor verify chain bid h r val all = true) ∧
+      t = seenPower vals cnt' := by
+  induction ps generalizing seen cnt acc with
+  | nil => simp only [tallyLoopAny, Except.ok.injEq] at hok; exact ⟨cnt, hcnt, by rw [← hok, hacc]⟩
+  | cons o ps ih =>
+    have hrest : ∀ o ∈ ps, o ∈ all := fun o ho => hsub o (List.mem_cons_of_mem _ ho)
+    cases o with
+    | none => simp only [tallyLoopAny] at hok; exact ih seen cnt acc hrest hacc hcs hcnt hok
+    | some v =>
+      simp only [tallyLoopAny] at hok
+      split at hok; · cases hok
+      split at hok; · cases hok
+      split at hok; · cases hok
+      rename_i h1 h2 h3
+      split at hok
+      · exact ih seen cnt acc hrest hacc hcs hcnt hok
+      · rename_i val hf
+        split at hok
+        · exact ih seen cnt acc hrest hacc hcs hcnt hok
+        · rename_i hns
+          have hnotin : v.addr ∉ seen := by simpa using hns
+          split at hok; · cases hok
+          rename_i hver
+          have hcs' : ∀ a ∈ cnt, a ∈ v.addr :: seen := fun a ha => List.mem_cons_of_mem _ (hcs a ha)
+          split at hok
+          · exact ih (v.addr :: seen) cnt acc hrest hacc hcs' hcnt hok
+          · rename_i hb
+            have hb' : bid = v.bid := by simpa using hb
+            have hva : val.addr = v.addr := find_addr vals v.addr val hf
+            have hslot : hasSlotFor verify chain bid h r val all = true := by
+              unfold hasSlotFor
+              rw [List.any_eq_true]
+              refine ⟨some v, hsub _ List.mem_cons_self, ?_⟩
+              have hv' : verify val.key (msgOf chain v) v.sig = true := by simpa using hver
+              simp only [Bool.and_eq_true, decide_eq_true_eq]
+              exact ⟨⟨⟨⟨⟨hva.symm, hb'⟩, by simpa using h1⟩, by simpa using h2⟩, by simpa using h3⟩, hv'⟩
+            have hncnt : v.addr ∉ cnt := fun hin => hnotin (hcs _ hin)
+            have hadd := seenPower_add vals v.addr cnt val hnd hf hncnt
+            have hbd := powerWhere_bounds vals (vals.map (fun w => (v.addr :: cnt).contains w.addr)) hno.1
+            have hbd0 := powerWhere_bounds vals (vals.map (fun w => cnt.contains w.addr)) hno.1
+            have hw : wrapI64 (acc + val.power) = seenPower vals (v.addr :: cnt) := by
+              have h2' := hno.2
+              have e : seenPower vals (v.addr :: cnt) = seenPower vals cnt + val.power := hadd
+              rw [e, hacc]
+              have : 0 ≤ seenPower vals cnt + val.power ∧ seenPower vals cnt + val.power < two62 := by
+                unfold seenPower at e ⊢; rw [← e]; omega
+              unfold two62 at this; unfold wrapI64; omega
+            rw [hw] at hok
+            refine ih (v.addr :: seen) (v.addr :: cnt) _ hrest rfl ?_ ?_ hok
+            · intro a ha
+              rcases List.mem_cons.1 ha with rfl | ha
+              · exact List.mem_cons_self
+              · exact List.mem_cons_of_mem _ (hcs a ha)
+            · intro a ha
+              rcases List.mem_cons.1 ha with rfl | ha
+              · exact ⟨val, hf, hslot⟩
+              · exact hcnt a ha
+
+/-- THE FULL STATEMENT HOLDS (after fix ddc1c92) -/
+theorem C03_verifyCommitAny : C03_verifyCommitAny_statement := by
+  intro verify vals chain bid h c hno hnd hok
+  unfold verifyCommitAny at hok
+  split at hok; · cases hok
+  split at hok; · cases hok
+  split at hok; · cases hok
+  rename_i t ht
+  split at hok
+  · rename_i hacc
+    obtain ⟨cnt, hc, htc⟩ := tallyLoopAny_ok verify chain bid h (Model.Commit.round c) vals c.precommits hno hnd c.precommits [] [] 0 t
+      (fun o ho => ho) (by simp [seenPower, powerWhere_none]) (fun a ha => by simp at ha) (fun a ha => by simp at ha) ht
+    rw [totalPower_eq vals hno] at hacc
+    have h23 := (verifyCommitAccepts_iff t (sumPowers vals) (sumPowers_nonneg vals hno.1) hno.2).1 hacc
+    have hle : seenPower vals cnt ≤ signerPower verify chain bid h (Model.Commit.round c) vals c.precommits := by
+      rw [signerPower_eq]
+      unfold seenPower
+      apply powerWhere_map_mono vals _ _ hno.1
+      intro v hv hin
+      have hmem : v.addr ∈ cnt := by simpa using hin
+      obtain ⟨val, hf, hs⟩ := hc _ hmem
+      rw [find_self vals v hnd hv] at hf
+      simp only [Option.some.injEq] at hf
+      rw [hf]; exact hs
+    omega
+  · cases hok
 
 end Props.C03
